@@ -63,6 +63,32 @@ func (t *c04RetryTransport) RoundTrip(req *http.Request) (*http.Response, error)
 		Body: io.NopCloser(strings.NewReader("ok")), ContentLength: 2, Request: req}, nil
 }
 
+// the upstream block of a c04.retry case: one or two backends, the retry settings, rules, replacements, without
+func c04RetryBlock(t1, t2, without string, rules []c04Entry, flags string, repls []c04Repl) ([]string, []blkLine, bool) {
+	ruleFlags := ""
+	if strings.Contains(flags, "transparent") {
+		ruleFlags = "transparent"
+	}
+	ruleLines, ok := c04RuleLines("header_upstream", rules, ruleFlags)
+	if !ok {
+		return nil, nil, false
+	}
+	replLines, ok := c04ReplLines("header_upstream", repls)
+	if !ok {
+		return nil, nil, false
+	}
+	lines := []blkLine{{"", " policy first\n"}, {"", " max_fails 3\n"}, {"", " try_duration 5s\n"}, {"", " try_interval 1ms\n"}, {"", " fail_timeout 60s\n"}}
+	lines = append(append(lines, ruleLines...), replLines...)
+	if without != "" {
+		lines = append(lines, blkLine{"", " without " + c04Tok(without) + "\n"})
+	}
+	backends := []string{t1}
+	if !strings.Contains(flags, "single") {
+		backends = append(backends, t2)
+	}
+	return backends, lines, true
+}
+
 func c04RetryEval(f []string) (string, []string) {
 	if len(f) != 21 {
 		return "bad-case", nil
@@ -90,27 +116,18 @@ func c04RetryEval(f []string) (string, []string) {
 		// one backend: the body is not buffered, a retry after the body was read is C05's known finding, not C04's business
 		return "bad-case:single backend, body read by the failing attempt", nil
 	}
-	ruleLines, ok := c04RuleLines("header_upstream", rules, strings.ReplaceAll(strings.ReplaceAll(flags, "single", ""), "unread", ""))
-	if !ok {
-		return "bad-case:rules", nil
-	}
 	repls, rok := c04DecRepls(f[17])
 	if !rok {
 		return "bad-case:repls", nil
 	}
-	replLines, rok := c04ReplLines("header_upstream", repls)
-	if !rok {
-		return "bad-case:repls", nil
+	backends, lines, ok := c04RetryBlock(t1, t2, without, rules, flags, repls)
+	if !ok {
+		return "bad-case:rules", nil
 	}
-	cfg := "proxy / " + t1
-	if !single {
-		cfg += " " + t2
+	cfg, ok := blkWrite("proxy /", backends, lines, blkFlag(flags, "lay"))
+	if !ok {
+		return "bad-case:layout", nil
 	}
-	cfg += " {\n policy first\n max_fails 3\n try_duration 5s\n try_interval 1ms\n fail_timeout 60s\n" + ruleLines + replLines
-	if without != "" {
-		cfg += " without " + c04Tok(without) + "\n"
-	}
-	cfg += "}\n"
 	body := c04Body(bodyLen, bodySeed)
 	up, msg := c04Upstream(cfg, nil)
 	if up == nil {
@@ -194,6 +211,7 @@ func c04RetryEval(f []string) (string, []string) {
 	if bodyLen > 0 {
 		tags = append(tags, "body-resent")
 	}
+	tags = append(tags, c04LayoutTags(blkFlag(flags, "lay"), len(lines))...)
 	return rec.lines[0] + "\t|\t" + rec.lines[want-1], tags
 }
 
@@ -202,6 +220,9 @@ func c04RetryGen(g *hx.Gen) {
 	plain := []c04Entry{{"Accept", []string{"*/*"}}}
 	// flags: "" two backends, the first fails after reading the body (three times: max_fails 3), the second answers;
 	//        "unread" the failing attempts do not touch the body; "single" one backend that fails once, then answers
+	// the layout of the upstream block of the cases emitted next: "" (backends on the directive line, fixed order of
+	// the lines), "rand" = a seeded one (backends on `upstream` lines / mixed, lines shuffled)
+	layout := ""
 	emit := func(flags, method, reqTarget string, hdr []c04Entry, cl int64, n int, seed uint64, t1, t2, without string, rules []c04Entry, repls ...c04Repl) {
 		p, rp, q, ok := c04ParseTarget(reqTarget)
 		if !ok {
@@ -212,6 +233,13 @@ func c04RetryGen(g *hx.Gen) {
 			if n > 0 && !strings.Contains(flags, "unread") {
 				flags += ",unread"
 			}
+		}
+		if layout == "rand" {
+			nb := 2
+			if strings.Contains(flags, "single") {
+				nb = 1
+			}
+			flags = blkWithFlag(flags, "lay", c04RandLayout(r, nb))
 		}
 		u1, e1 := url.Parse(t1)
 		u2, e2 := url.Parse(t2)
@@ -247,6 +275,15 @@ func c04RetryGen(g *hx.Gen) {
 						emit(mode, "POST", rt, plain, 10, 10, 3, "http://b1.test:8080"+b1+tq, "http://b2.test:8080"+b2+tq, wo, nil)
 						if b1 == b2 {
 							emit("single", "POST", rt, plain, 10, 10, 3, "http://b1.test:8080"+b1+tq, "", wo, nil)
+						}
+						// the same block written another way (more than four lines: sampled)
+						if wo != "" && qi == 0 {
+							layout = "rand"
+							emit(mode, "POST", rt, plain, 10, 10, 3, "http://b1.test:8080"+b1+tq, "http://b2.test:8080"+b2+tq, wo, nil)
+							if b1 == b2 {
+								emit("single", "POST", rt, plain, 10, 10, 3, "http://b1.test:8080"+b1+tq, "", wo, nil)
+							}
+							layout = ""
 						}
 					}
 				}
@@ -356,6 +393,10 @@ func c04RetryGen(g *hx.Gen) {
 		var repls []c04Repl
 		if r.Chance(1, 2) {
 			repls = c04RandRepls(r, names)
+		}
+		layout = ""
+		if r.Chance(1, 2) {
+			layout = "rand"
 		}
 		emit(hx.Pick(r, modes), hx.Pick(r, c04Methods), rt, c04RandHeader(r, c04E2ENames), cl, n, r.U64()%1000,
 			"http://"+c1+"b1.test:8080"+b1+tq, "http://"+c2+"b2.test:8080"+b2+tq, hx.Pick(r, c04Withouts), c04RandRules(r, names), repls...)
